@@ -75,6 +75,21 @@ void harness(void)
     VP_ASSERT(ufw_buffer_crc16_arc_u16(w, in.n) == ref_crc(0, img, 2u * (size_t)in.n),
               "C16.words-init0");
     VP_WITNESS(in.n == LEN && in.init == 0x4321, "C16.words.reach");
+#elif defined(MODE_WORDS_BE)
+    /* the SYSTEM_ENDIANNESS_BIG branch of ufw_crc16_arc_u16 (compiled with
+     * -DSYSTEM_ENDIANNESS_BIG): on a big-endian host a word's in-memory octet
+     * image is most significant octet first */
+    VP_ASSUME(in.n <= LEN);
+    const uint16_t *w = in.words + (LEN - in.n);
+    uint16_t got = ufw_crc16_arc_u16(in.init, w, in.n);
+    uint8_t img[2 * LEN];
+    for (unsigned i = 0; i < in.n; ++i) {
+        img[2 * i] = (uint8_t)(w[i] >> 8);
+        img[2 * i + 1] = (uint8_t)(w[i] & 0xffu);
+    }
+    VP_ASSERT(got == ref_crc(in.init, img, 2u * (size_t)in.n), "C16.words-be-ref");
+    VP_ASSERT(got == ufw_crc16_arc(in.init, img, 2u * (size_t)in.n), "C16.words-be-vs-octets");
+    VP_WITNESS(in.n == LEN && in.init == 0x4321, "C16.words-be.reach");
 #else
 #error "no MODE"
 #endif
